@@ -1584,7 +1584,7 @@ def trace(case, judge=True):
     try:
         for line in _prelude():
             im.lines.append(line)
-            im.outs.append([[OK], [Atom("set")]])
+            im.outs.append([[OK], [Atom("set")], True])
         pre = len(im.lines)
         for i, op in enumerate(case["ops"]):
             im.step = pre + i
@@ -1610,7 +1610,7 @@ def trace(case, judge=True):
             im.bump("op." + op[0])
             if with_model:
                 im.lines.append([Atom("seq")] + prims)
-                im.outs.append([list(res), im.digest()])
+                im.outs.append([list(res), im.digest(), True])
             else:
                 im.lines.append([Atom("skip")])
                 im.outs.append(Atom("skip"))
